@@ -17,6 +17,7 @@ type Config struct {
 	Assert        map[string]bool // op kinds whose outcome (incl. normal return) is asserted
 	AuditOps      []string        // audits run automatically: sweep, scan, extremes, sizecheck, shape
 	AuditEvery    int             // after every n-th op and at the end (0: end only)
+	NoClassify    bool            // skip the per-op classification facts that scan the whole model (scale histories)
 	ExcludeKF     bool            // inserts that would create a KF1/KF2 pair become searches
 	Bracket       bool            // C15: raw-state comparison around calls that must not change the tree
 	Twin          bool            // C12: an emptied tree is shadowed by a freshly created one
@@ -555,6 +556,9 @@ func (e *Engine) doInsert(s *slot, op Op) error {
 
 // noteInsert classifies a new key against the stored ones (C08 / C09 classes).
 func (e *Engine) noteInsert(s *slot, raw []byte) {
+	if e.cfg.NoClassify {
+		return
+	}
 	switch k := s.kind.(type) {
 	case *collKind:
 		pk := k.PrimaryKey(raw)
@@ -628,6 +632,9 @@ func (e *Engine) doDelete(s *slot, op Op) error {
 
 // noteAbsent classifies an absent probe.
 func (e *Engine) noteAbsent(s *slot, raw []byte) {
+	if e.cfg.NoClassify {
+		return
+	}
 	es := s.model.Sorted()
 	if len(es) < 2 {
 		return
